@@ -22,6 +22,7 @@ against spec/Trace_Maildir.tla.  No semantics of the property lives here.
 from __future__ import annotations
 
 import builtins
+import errno
 import json
 import os
 import shutil
@@ -81,9 +82,13 @@ class Tracer:
     """Wraps the mutating filesystem entry points.  Nested wrapped calls (tempfile ->
     os.open, mailbox._create_carefully -> os.open + open) count once."""
 
-    def __init__(self, fd: int, kill_at: int | None, user_dir: str, tmp_dir: str):
+    def __init__(self, fd: int, kill_at: int | None, user_dir: str, tmp_dir: str,
+                 fail: tuple | None = None):
         self.fd = fd
         self.kill_at = kill_at
+        # (k, errno): operation k is not performed and raises OSError(errno) instead - a
+        # failing system call (ENOSPC, EIO, EXDEV ...); the process goes on
+        self.fail = fail
         self.n = 0
         self.depth = 0
         self.user_dir = os.path.realpath(user_dir)
@@ -105,6 +110,11 @@ class Tracer:
             rec['killed'] = True
             self.emit(rec)
             os._exit(137)
+        if self.fail is not None and k == self.fail[0]:
+            rec['failed'] = self.fail[1]
+            self.emit(rec)
+            self.n = k + 1
+            raise OSError(self.fail[1], os.strerror(self.fail[1]), *[self._s(p) for p in paths[:1]])
         self.emit(rec)
         self.n = k + 1
 
@@ -1367,8 +1377,9 @@ def child_seed(cfg: Cfg, run_dir: str, tmp_dir: str, hist: dict, out_path: str,
 def child_cut(cfg: Cfg, run_dir: str, tmp_dir: str, hist: dict, loc: dict, kill_at,
               log_path: str, nonce: str) -> None:
     """prelude (tracer off), then the command under test with the tracer counting from 0;
-    kill_at: None (run to the end) | 'pre' (stop before the command is sent) | k.
-    Never returns."""
+    kill_at: None (run to the end) | 'pre' (stop before the command is sent) | k |
+    ['fail', k, errno] (operation k raises OSError(errno) instead of being performed; the
+    process goes on to the end).  Never returns."""
     code = 0
     fd = -1
     try:
@@ -1376,7 +1387,8 @@ def child_cut(cfg: Cfg, run_dir: str, tmp_dir: str, hist: dict, loc: dict, kill_
         _set_tmp(tmp_dir)
         fd = os.open(log_path, os.O_WRONLY | os.O_CREAT | os.O_APPEND, 0o600)
         tr = Tracer(fd, kill_at if isinstance(kill_at, int) else None,
-                    os.path.join(run_dir, USER), tmp_dir)
+                    os.path.join(run_dir, USER), tmp_dir,
+                    fail=(kill_at[1], kill_at[2]) if isinstance(kill_at, (list, tuple)) else None)
         tr.install()
         w = World('maildir', users={USER: PASSWORD}, layout=cfg.layout, maildir_dir=run_dir,
                   config_kw={'_provision': False})
@@ -1520,6 +1532,22 @@ def ack_event(cmd: dict | None) -> dict:
 _DELIVER = ('link(tmp/msg->new/msg)', 'link(tmp/msg->cur/msg)')
 
 
+def fail_errnos(label: str, mode: str) -> list:
+    """which errors a failing system call of this kind plausibly returns: rename / link between
+    directories EXDEV (another filesystem) or ENOSPC (the directory has to grow), creating or
+    writing ENOSPC, removing EIO; mode 'all' adds EIO for every kind"""
+    op = label.split('(')[0]
+    if op in ('rename', 'replace', 'link'):
+        out = [errno.EXDEV, errno.ENOSPC]
+    elif op in ('creat', 'open-w', 'open-x', 'open-a', 'write', 'mktemp', 'mkdir'):
+        out = [errno.ENOSPC]
+    else:
+        out = [errno.EIO]
+    if mode == 'all' and errno.EIO not in out:
+        out.append(errno.EIO)
+    return out
+
+
 def run_job14(job: dict) -> dict:
     """executed in a pool worker.  job: {cfg: (layout, store_root, tmp), hist, hid, nonce,
     template (provisioned store, INBOX opened once), points: None (all) | int (sample size),
@@ -1612,15 +1640,32 @@ def run_job14(job: dict) -> dict:
                   'n': cut[2] if cut[0] == 'Append' else len(cut_cids(hist))}
 
         def trace(k, dump, cutrec, labels, L):
+            if isinstance(k, (list, tuple)):
+                # a failing system call: operation k[1] raised OSError(k[2]) and was not
+                # performed; whatever the command did afterwards is in labels too
+                fk = k[1]
+                hit = len(labels) > fk
+                done = labels[:fk] + labels[fk + 1:]
+                kill = {'e': 'kill', 'kind': 'fail', 'errno': errno.errorcode.get(k[2], str(k[2])),
+                        'k': fk if hit else -1, 'L': L,
+                        'before': labels[fk] if hit else 'end',
+                        'after': (labels[fk - 1] if fk and hit else 'start'),
+                        'delivered': sum(1 for x in done if x in _DELIVER)}
+                post = boxes_event('post', dump, contents)
+                post['aged'] = dump.get('aged', 0)
+                return {'k': kill['k'], 'fault': 'fail:' + kill['errno'],
+                        'events': [pre, cmd_ev, ack_event(cutrec), kill, post],
+                        'failed': dump.get('failed', [])[:4]}
             killed = isinstance(k, int) and bool(labels) and len(labels) == k + 1
             done = labels[:-1] if killed else labels
-            kill = {'e': 'kill', 'k': k if killed else -1, 'L': L,
+            kill = {'e': 'kill', 'kind': 'kill', 'errno': '', 'k': k if killed else -1, 'L': L,
                     'before': labels[-1] if killed else 'end',
                     'after': (done[-1] if done else 'start'),
                     'delivered': sum(1 for x in done if x in _DELIVER)}
             post = boxes_event('post', dump, contents)
             post['aged'] = dump.get('aged', 0)
-            return {'k': kill['k'], 'events': [pre, cmd_ev, ack_event(cutrec), kill, post],
+            return {'k': kill['k'], 'fault': 'kill',
+                    'events': [pre, cmd_ev, ack_event(cutrec), kill, post],
                     'failed': dump.get('failed', [])[:4]}
 
         dump, cutrec, labels = one(None)
@@ -1643,6 +1688,17 @@ def run_job14(job: dict) -> dict:
             if klabels != labels[:k + 1]:
                 res['prefix_mismatch'] += 1
             res['traces'].append(trace(k, dump, cutrec, klabels, L))
+        # failing system calls: operation k raises an OSError instead of being performed
+        if job.get('fail'):
+            for k in ks:
+                for eno in fail_errnos(labels[k], job['fail']):
+                    fk = ['fail', k, eno]
+                    dump, cutrec, klabels = one(fk)
+                    if dump is None:
+                        continue
+                    if klabels[:k + 1] != labels[:k + 1]:
+                        res['prefix_mismatch'] += 1
+                    res['traces'].append(trace(fk, dump, cutrec, klabels, L))
     except Exception:
         res['machinery'].append('job failed: ' + traceback.format_exc()[-1200:])
     finally:
